@@ -2,6 +2,7 @@ package rlib
 
 import (
 	"fmt"
+	"time"
 
 	"google.golang.org/protobuf/proto"
 	"google.golang.org/protobuf/types/known/fieldmaskpb"
@@ -28,6 +29,7 @@ func GenConfig(t *rapid.T, isValue bool, simple bool) (Config, []proto.Message) 
 			cfg.Writable = nil
 		}
 	}
+	cfg.ReuseOptions = rapid.Bool().Draw(t, "reuseOptions")
 	if isValue {
 		if rapid.IntRange(0, 3).Draw(t, "hasInitial") > 0 {
 			cfg.InitialValue = proto.Clone(alphabet[rapid.IntRange(0, 3).Draw(t, "initial")])
@@ -107,13 +109,18 @@ func GenOp(t *rapid.T, r *Runner, alphabet []proto.Message, readsToo bool) Op {
 		case k <= 4:
 			op.Val = proto.Clone(alphabet[rapid.IntRange(0, len(alphabet)-1).Draw(t, "alpha")])
 		case k <= 7 && cur != nil:
+			if op.Kind != OpAdd && r.Cfg.Writable == nil && rapid.IntRange(0, 3).Draw(t, "sameObject") == 0 {
+				// hand back the very object a Get returns (with a reset mask or an interceptor the write still changes it)
+				op.Val, op.SameObject = proto.Clone(cur), true
+				break
+			}
 			op.Val, _ = lib.Mutate(t, "valMut", cur, 3, genO)
 		default:
 			op.Val = lib.GenMessage(t, "valNew", r.Cfg.Proto, genO)
 		}
 		// masks
 		switch k := rapid.IntRange(0, 11).Draw(t, "umKind"); {
-		case k <= 5:
+		case k <= 5 || op.SameObject:
 		case k == 6:
 			op.UpdateMask = &fieldmaskpb.FieldMask{}
 		case k == 7:
@@ -124,7 +131,7 @@ func GenOp(t *rapid.T, r *Runner, alphabet []proto.Message, readsToo bool) Op {
 				op.MoreUpdateMask, _ = lib.DrawMask(t, "mumMask", md, op.Val)
 			}
 		}
-		if rapid.IntRange(0, 7).Draw(t, "hasReset") == 0 {
+		if rapid.IntRange(0, 7).Draw(t, "hasReset") == 0 || (op.SameObject && rapid.Bool().Draw(t, "sameReset")) {
 			op.ResetMask, _ = lib.DrawMask(t, "reset", md, op.Val, cur)
 			if rapid.IntRange(0, 5).Draw(t, "resetCorrupt") == 0 {
 				op.ResetMask, _, _ = lib.DrawCorruptMask(t, "resetC", md, op.Val)
@@ -150,16 +157,19 @@ func GenOp(t *rapid.T, r *Runner, alphabet []proto.Message, readsToo bool) Op {
 		}
 		if rapid.IntRange(0, 4).Draw(t, "before") == 0 {
 			op.Before = rapid.SampledFrom([]string{"delta", "delta", "noop"}).Draw(t, "beforeKind")
+			if op.SameObject {
+				op.Before = "noop" // the delta interceptor writes into the message it is given
+			}
 		}
 		if rapid.IntRange(0, 4).Draw(t, "after") == 0 {
 			op.After = rapid.SampledFrom([]string{"derive", "derive", "noop"}).Draw(t, "afterKind")
 		}
 		if rapid.IntRange(0, 5).Draw(t, "writeTime") == 0 {
-			op.WriteTick = int64(rapid.IntRange(1, 1000000).Draw(t, "tick"))
+			op.WriteTick = drawTick(t, "tick")
 		}
 	}
 	if op.Kind == OpDelete && rapid.IntRange(0, 5).Draw(t, "deleteWriteTime") == 0 {
-		op.WriteTick = int64(rapid.IntRange(1, 1000000).Draw(t, "deleteTick"))
+		op.WriteTick = drawTick(t, "deleteTick")
 	}
 	// preconditions
 	switch k := rapid.IntRange(0, 9).Draw(t, "expKind"); {
@@ -205,4 +215,20 @@ func GenOp(t *rapid.T, r *Runner, alphabet []proto.Message, readsToo bool) Op {
 		op.AllowMissing = rapid.IntRange(0, 2).Draw(t, "am") == 0
 	}
 	return op
+}
+
+// drawTick draws an explicit write time: mostly after the epoch (ahead of or behind the resource's clock), sometimes
+// before it, the unix epoch, or Go's zero time.
+func drawTick(t *rapid.T, label string) int64 {
+	switch rapid.IntRange(0, 9).Draw(t, label+"Kind") {
+	case 0:
+		return ZeroTimeTick
+	case 1:
+		return TickOf(time.Unix(0, 0))
+	case 2:
+		return -int64(rapid.IntRange(1, 1000000).Draw(t, label+"Neg"))
+	case 3:
+		return int64(rapid.IntRange(1, 30).Draw(t, label+"Small")) // around the fake clock's own readings
+	}
+	return int64(rapid.IntRange(1, 1000000).Draw(t, label))
 }
